@@ -13,7 +13,7 @@
    out (all histories, unconditional); a packet can only touch the record stored under its OWN identifier
    (C10_modulo_findings): the cross-contamination is exactly "same number in both directions". *)
 From MV Require Import Base.Val Session.Pkt Session.Inflight Session.InflightProofs Session.QosSpecs
-  Session.QosProofs Session.QosOrder Session.QosLive Session.QosSound Session.QosWitness.
+  Session.QosProofs Session.QosOrder Session.QosLive Session.QosSound Session.QosWitness Conc.NextId Conc.NextIdProofs.
 Open Scope N_scope.
 
 (* every outbound QoS 1/2 PUBLISH ever written — first transmission, release of a held-back message, resend —
@@ -42,6 +42,24 @@ Theorem C10_modulo_findings : forall c s o orc k r,
   keeps_session o = true -> acks k o = false -> (own_pub k o = false \/ r_ty r = T_PUBREC) ->
   persistent (fst (step c s o orc)) /\ get k (s_infl (fst (step c s o orc))) = Some r.
 Proof. exact step_keeps_record. Qed.
+
+(* CONCURRENT allocation (several publishers deliver to the same subscriber at once): interleaving model Conc/NextId.v.
+   With Client.NextPacketID's load-scan-store one atomic step (it holds the client lock), for EVERY schedule of n
+   allocators on a session whose identifiers in use are all at most the counter, with room for n more: the identifiers
+   handed out are pairwise distinct, were not in use and lie in (c0, c0 + n].  Tied to the code by forced schedules
+   (schedule point nextid.inside): nobody else gets inside the critical section while an allocator is parked there. *)
+Theorem C10_allocation_all_schedules : forall maxpid c0 u0 n sched,
+  (forall x, In x u0 -> x <= c0) -> c0 + N.of_nat n <= maxpid ->
+  let '(sh, ths) := run_sched (step_atomic maxpid) {| sh_counter := c0; sh_used := u0 |} (repeat Start n) sched in
+  NoDup (ids ths) /\ forall x, In x (ids ths) -> c0 < x <= c0 + N.of_nat n /\ ~ In x u0.
+Proof. exact atomic_ids_distinct. Qed.
+
+(* without the atomicity (load, scan and store as separate steps - what a shared lock would allow) a schedule hands the
+   same identifier to two messages; the same schedule is harmless for the atomic variant *)
+Theorem C10_refuted_split_allocation : exists maxpid c0 u0 sched,
+  ids (snd (run_sched (step_split maxpid) {| sh_counter := c0; sh_used := u0 |} (repeat Start 2) sched)) = [1; 1] /\
+  ids (snd (run_sched (step_atomic maxpid) {| sh_counter := c0; sh_used := u0 |} (repeat Start 2) sched)) = [1; 2].
+Proof. exists 8, 0, [], [0; 1; 0; 1; 0; 1; 0; 1]%nat. vm_compute. split; reflexivity. Qed.
 
 (* the step check of the monitor says what the specification says: identifiers in range and not shared with another
    outstanding message; own identifiers, acknowledgements and deliveries leave the other records alone *)
@@ -75,6 +93,8 @@ Proof. vm_compute. split; reflexivity. Qed.
 Print Assumptions C10_ids_in_range.
 Print Assumptions C10_fresh_id.
 Print Assumptions C10_modulo_findings.
+Print Assumptions C10_allocation_all_schedules.
+Print Assumptions C10_refuted_split_allocation.
 Print Assumptions C10_monitor_sound.
 Print Assumptions C10_refuted_own_id.
 Print Assumptions C10_refuted_ack.
